@@ -66,9 +66,13 @@ def folds(m, cls, f, seen=None):
         return True, 'recursive'
     seen = seen | {f.fqn}
     params = [a.arg for a in f.node.args.args][1:]
-    if not params:
+    if not params and f.node.args.vararg is None:
         return False, 'no key parameter'
-    key = params[0]
+    key = params[0] if params else None
+    if f.name == '__init__' and key == 'default_factory':
+        # defaultdict signature: the first positional is the factory, entries follow in *args / **kwargs
+        params = params[1:]
+        key = params[0] if params else None
     folded = set()          # names that hold folded values (line where they become folded)
     fold_line = {}
     for n in ast.walk(f.node):
@@ -76,8 +80,35 @@ def folds(m, cls, f, seen=None):
             if _is_fold(n.value):
                 fold_line.setdefault(n.targets[0].id, n.lineno)
     touched = False
+    # `self[k]`, `self[k] = v`, `del self[k]`, `k in self`: routed through the class' own dunder methods
+    for n in ast.walk(f.node):
+        dunder = None
+        if isinstance(n, ast.Subscript) and isinstance(n.value, ast.Name) and n.value.id == 'self':
+            dunder = {ast.Load: '__getitem__', ast.Store: '__setitem__', ast.Del: '__delitem__'}[type(n.ctx)]
+        elif isinstance(n, ast.Compare) and len(n.ops) == 1 and isinstance(n.ops[0], (ast.In, ast.NotIn)) \
+                and isinstance(n.comparators[0], ast.Name) and n.comparators[0].id == 'self':
+            dunder = '__contains__'
+        if dunder:
+            callee = m.member_function(cls, dunder)
+            if callee is None or not callee.module.name.startswith('loki'):
+                return False, f'`{ast.unparse(n)}` reaches the base class {dunder} with an unfolded key'
+            ok, why = folds(m, cls, callee, seen)
+            if not ok:
+                return False, f'via {callee.qualname}: {why}'
+            touched = True
     for n in sorted((x for x in ast.walk(f.node) if isinstance(x, ast.Call)), key=lambda x: (x.lineno, x.col_offset)):
         d = X.dotted_attr(n.func) or ''
+        if d.startswith('self.') and d.split('.', 1)[1] in API and (not n.args or isinstance(n.args[0], ast.Starred)):
+            callee = m.member_function(cls, d.split('.', 1)[1])
+            if callee is None or not callee.module.name.startswith('loki'):
+                return False, f'{ast.unparse(n)} forwards the entries to the base class unfolded'
+            ok, why = folds(m, cls, callee, seen)
+            if not ok:
+                return False, f'via {callee.qualname}: {why}'
+            touched = True
+            continue
+        if d == 'super().__init__' and f.name == '__init__' and [ast.unparse(a) for a in n.args] == ['default_factory'] and not n.keywords:
+            continue
         if d.startswith('super().') or (d.startswith('dict.') or d.startswith('OrderedDict.')):
             touched = True
             for a in n.args[:1] if not d.startswith(('dict.', 'OrderedDict.')) else n.args[1:2]:
@@ -302,12 +333,23 @@ U = 'loki/tools/util.py'
 S = 'loki/types/symbol_table.py'
 MUTANTS = [
     Mutant('cid-drop-contains', U,
-           "    def __contains__(self, key):\n        key = key.lower() if isinstance(key, str) else key\n        return super().__contains__(key)\n\n\nclass CaseInsensitiveDefaultDict",
-           "\n\nclass CaseInsensitiveDefaultDict", expect=('R1', 'CaseInsensitiveDict.__contains__'), quick=True),
+           "    def __contains__(self, key):\n        key = key.lower() if isinstance(key, str) else key\n        return super().__contains__(key)\n\n    def __delitem__(self, key):\n        key = key.lower() if isinstance(key, str) else key\n        super().__delitem__(key)\n\n    def pop(self, key, *args):\n        key = key.lower() if isinstance(key, str) else key\n        return super().pop(key, *args)\n\n\nclass CaseInsensitiveDefaultDict",
+           "    def __delitem__(self, key):\n        key = key.lower() if isinstance(key, str) else key\n        super().__delitem__(key)\n\n    def pop(self, key, *args):\n        key = key.lower() if isinstance(key, str) else key\n        return super().pop(key, *args)\n\n\nclass CaseInsensitiveDefaultDict",
+           expect=('R1', 'CaseInsensitiveDict.__contains__'), quick=True),
     Mutant('cid-get-unfolded', U,
-           "    def get(self, key, default=None):\n        key = key.lower() if isinstance(key, str) else key\n        return super().get(key, default)\n\n    def __contains__(self, key):\n        key = key.lower() if isinstance(key, str) else key\n        return super().__contains__(key)\n\n\nclass CaseInsensitiveDefaultDict",
-           "    def get(self, key, default=None):\n        return super().get(key, default)\n\n    def __contains__(self, key):\n        key = key.lower() if isinstance(key, str) else key\n        return super().__contains__(key)\n\n\nclass CaseInsensitiveDefaultDict",
+           "    def get(self, key, default=None):\n        key = key.lower() if isinstance(key, str) else key\n        return super().get(key, default)\n\n    def __contains__(self, key):\n        key = key.lower() if isinstance(key, str) else key\n        return super().__contains__(key)\n\n    def __delitem__(self, key):\n        key = key.lower() if isinstance(key, str) else key\n        super().__delitem__(key)\n\n    def pop(self, key, *args):\n        key = key.lower() if isinstance(key, str) else key\n        return super().pop(key, *args)\n\n\nclass CaseInsensitiveDefaultDict",
+           "    def get(self, key, default=None):\n        return super().get(key, default)\n\n    def __contains__(self, key):\n        key = key.lower() if isinstance(key, str) else key\n        return super().__contains__(key)\n\n    def __delitem__(self, key):\n        key = key.lower() if isinstance(key, str) else key\n        super().__delitem__(key)\n\n    def pop(self, key, *args):\n        key = key.lower() if isinstance(key, str) else key\n        return super().pop(key, *args)\n\n\nclass CaseInsensitiveDefaultDict",
            expect=('R1', 'CaseInsensitiveDict.get')),
+    Mutant('cid-delitem-removed', U,
+           "    def __delitem__(self, key):\n        key = key.lower() if isinstance(key, str) else key\n        super().__delitem__(key)\n\n    def pop(self, key, *args):\n        key = key.lower() if isinstance(key, str) else key\n        return super().pop(key, *args)\n\n\nclass CaseInsensitiveDefaultDict",
+           "    def pop(self, key, *args):\n        key = key.lower() if isinstance(key, str) else key\n        return super().pop(key, *args)\n\n\nclass CaseInsensitiveDefaultDict",
+           expect=('R1', 'CaseInsensitiveDict.__delitem__')),
+    Mutant('st-delitem-raw', S, "        super().__delitem__(self.format_lookup_name(key))", "        super().__delitem__(key)", expect=('R1', 'SymbolTable.__delitem__')),
+    Mutant('st-pop-raw', S, "            return super().pop(name)\n        return super().pop(name, default)", "            return super().pop(key)\n        return super().pop(key, default)",
+           expect=('R1', 'SymbolTable.pop')),
+    Mutant('cidd-setdefault-base', U, "    def setdefault(self, key, default=None):\n        if key not in self:\n            self[key] = default\n        return self[key]\n\n", "",
+           expect=('R1', 'CaseInsensitiveDefaultDict.setdefault')),
+    Mutant('clone-parent-truthiness', S, "        if self.parent is not None and 'parent' not in kwargs:", "        if self.parent and 'parent' not in kwargs:", expect=('R4', 'SymbolTable.clone')),
     Mutant('st-setitem-no-clone', S, "super().__setitem__(name_parts, value.clone())", "super().__setitem__(name_parts, value)",
            expect=('R2', '__setitem__:clone-in')),
     Mutant('st-setdefault-unfolded', S, "super().setdefault(self.format_lookup_name(key), default.clone())",
@@ -318,8 +360,4 @@ MUTANTS = [
            "        return value\n", expect=('R2', '_lookup_formatted_name:clone-out')),
     Mutant('parent-truthiness', S, "        if value is None and recursive and self.parent is not None:",
            "        if value is None and recursive and self.parent:", expect=('R4', '_lookup_formatted_name:truthiness')),
-    Mutant('repair-delitem', U,
-           "    def __contains__(self, key):\n        key = key.lower() if isinstance(key, str) else key\n        return super().__contains__(key)\n\n\nclass CaseInsensitiveDefaultDict",
-           "    def __contains__(self, key):\n        key = key.lower() if isinstance(key, str) else key\n        return super().__contains__(key)\n\n    def __delitem__(self, key):\n        key = key.lower() if isinstance(key, str) else key\n        super().__delitem__(key)\n\n\nclass CaseInsensitiveDefaultDict",
-           expect=None),
 ]
